@@ -8,8 +8,8 @@
 (*   48 C7 C0 imm32      mov  rax, simm32                                      *)
 (*   B8 imm32            mov  eax, imm32 (zero-extends)                        *)
 (*   C3                  ret                                                   *)
-(*   49 BB imm64 / 41 FF E3   mov r11, imm64 ; jmp r11                         *)
-(*   49 BA imm64 / 41 FF E2   mov r10, imm64 ; jmp r10                         *)
+(*   REX.W(+B) B8+r imm64     mov r64, imm64   (any register)                  *)
+(*   [41] FF E0+r             jmp r64          (any register)                  *)
 (*   FF 25 00 00 00 00 + qword   jmp [rip+0]                                   *)
 (*   90                  nop                                                   *)
 (* Memory is a set of segments [base |-> 8-byte word, bytes |-> seq]; a fetch  *)
@@ -27,36 +27,36 @@ Fetch(segs, pc, n) ==
       d  == Small(Sub(pc, sg.base))
   IN  Slice(sg.bytes, d + 1, n)
 
-St0(pc) == [pc |-> pc, rax |-> Zero(8), r10 |-> Zero(8), r11 |-> Zero(8), written |-> {}, status |-> "run", n |-> 0]
+\* registers by number: 0 rax 1 rcx 2 rdx 3 rbx 4 rsp 5 rbp 6 rsi 7 rdi 8..15 r8..r15
+RegNames == <<"rax", "rcx", "rdx", "rbx", "rsp", "rbp", "rsi", "rdi", "r8", "r9", "r10", "r11", "r12", "r13", "r14", "r15">>
+RN(n) == RegNames[n + 1]
+
+St0(pc) == [pc |-> pc, r |-> [n \in 0..15 |-> Zero(8)], rax |-> Zero(8), written |-> {}, status |-> "run", n |-> 0]
+
+SetReg(st, n, v, len) ==
+  [st EXCEPT !.r[n] = v, !.rax = IF n = 0 THEN v ELSE @, !.written = @ \cup {RN(n)}, !.pc = AddNat(@, len), !.n = @ + 1]
 
 StepX(segs, st) ==
   IF ~CanFetch(segs, st.pc, 1) THEN [st EXCEPT !.status = "left"]
   ELSE LET op == Fetch(segs, st.pc, 1)[1] IN
-    IF op = 233 /\ CanFetch(segs, st.pc, 5)                                   \* E9
+    IF op = 233 /\ CanFetch(segs, st.pc, 5)                                   \* E9 rel32
     THEN [st EXCEPT !.pc = Add(AddNat(st.pc, 5), SignExt(Slice(Fetch(segs, st.pc, 5), 2, 4), 8)), !.n = @ + 1]
     ELSE IF op = 195 THEN [st EXCEPT !.status = "ret", !.n = @ + 1]            \* C3
     ELSE IF op = 144 THEN [st EXCEPT !.pc = AddNat(@, 1), !.n = @ + 1]        \* 90
-    ELSE IF op = 184 /\ CanFetch(segs, st.pc, 5)                              \* B8 imm32
-    THEN [st EXCEPT !.rax = ZeroExt(Slice(Fetch(segs, st.pc, 5), 2, 4), 8), !.pc = AddNat(@, 5),
-                    !.written = @ \cup {"rax"}, !.n = @ + 1]
-    ELSE IF op = 72 /\ CanFetch(segs, st.pc, 2) /\ Fetch(segs, st.pc, 2)[2] = 184 /\ CanFetch(segs, st.pc, 10)
-    THEN [st EXCEPT !.rax = Slice(Fetch(segs, st.pc, 10), 3, 8), !.pc = AddNat(@, 10),      \* 48 B8 imm64
-                    !.written = @ \cup {"rax"}, !.n = @ + 1]
-    ELSE IF op = 72 /\ CanFetch(segs, st.pc, 7) /\ Slice(Fetch(segs, st.pc, 7), 2, 2) = <<199, 192>>
-    THEN [st EXCEPT !.rax = SignExt(Slice(Fetch(segs, st.pc, 7), 4, 4), 8), !.pc = AddNat(@, 7),   \* 48 C7 C0 imm32
-                    !.written = @ \cup {"rax"}, !.n = @ + 1]
-    ELSE IF op = 255 /\ CanFetch(segs, st.pc, 2) /\ Fetch(segs, st.pc, 2)[2] = 224           \* FF E0
-    THEN [st EXCEPT !.pc = st.rax, !.n = @ + 1]
-    ELSE IF op = 73 /\ CanFetch(segs, st.pc, 10) /\ Fetch(segs, st.pc, 2)[2] = 187           \* 49 BB imm64
-    THEN [st EXCEPT !.r11 = Slice(Fetch(segs, st.pc, 10), 3, 8), !.pc = AddNat(@, 10),
-                    !.written = @ \cup {"r11"}, !.n = @ + 1]
-    ELSE IF op = 73 /\ CanFetch(segs, st.pc, 10) /\ Fetch(segs, st.pc, 2)[2] = 186           \* 49 BA imm64
-    THEN [st EXCEPT !.r10 = Slice(Fetch(segs, st.pc, 10), 3, 8), !.pc = AddNat(@, 10),
-                    !.written = @ \cup {"r10"}, !.n = @ + 1]
-    ELSE IF op = 65 /\ CanFetch(segs, st.pc, 3) /\ Slice(Fetch(segs, st.pc, 3), 2, 2) = <<255, 227>>  \* 41 FF E3
-    THEN [st EXCEPT !.pc = st.r11, !.n = @ + 1]
-    ELSE IF op = 65 /\ CanFetch(segs, st.pc, 3) /\ Slice(Fetch(segs, st.pc, 3), 2, 2) = <<255, 226>>  \* 41 FF E2
-    THEN [st EXCEPT !.pc = st.r10, !.n = @ + 1]
+    ELSE IF op \in 184..191 /\ CanFetch(segs, st.pc, 5)                       \* B8+r imm32 (zero-extends)
+    THEN SetReg(st, op - 184, ZeroExt(Slice(Fetch(segs, st.pc, 5), 2, 4), 8), 5)
+    ELSE IF op \in {72, 73} /\ CanFetch(segs, st.pc, 10) /\ Fetch(segs, st.pc, 2)[2] \in 184..191
+    THEN SetReg(st, (Fetch(segs, st.pc, 2)[2] - 184) + (IF op = 73 THEN 8 ELSE 0),       \* REX.W(+B) B8+r imm64
+                Slice(Fetch(segs, st.pc, 10), 3, 8), 10)
+    ELSE IF op \in {72, 73} /\ CanFetch(segs, st.pc, 7) /\ Fetch(segs, st.pc, 3)[2] = 199
+            /\ Fetch(segs, st.pc, 3)[3] \in 192..199                                       \* REX.W(+B) C7 /0 imm32
+    THEN SetReg(st, (Fetch(segs, st.pc, 3)[3] - 192) + (IF op = 73 THEN 8 ELSE 0),
+                SignExt(Slice(Fetch(segs, st.pc, 7), 4, 4), 8), 7)
+    ELSE IF op = 255 /\ CanFetch(segs, st.pc, 2) /\ Fetch(segs, st.pc, 2)[2] \in 224..231  \* FF /4: jmp r64
+    THEN [st EXCEPT !.pc = st.r[Fetch(segs, st.pc, 2)[2] - 224], !.n = @ + 1]
+    ELSE IF op = 65 /\ CanFetch(segs, st.pc, 3) /\ Fetch(segs, st.pc, 3)[2] = 255
+            /\ Fetch(segs, st.pc, 3)[3] \in 224..231                                       \* 41 FF /4: jmp r8..r15
+    THEN [st EXCEPT !.pc = st.r[Fetch(segs, st.pc, 3)[3] - 224 + 8], !.n = @ + 1]
     ELSE IF op = 255 /\ CanFetch(segs, st.pc, 14) /\ Slice(Fetch(segs, st.pc, 6), 2, 5) = <<37, 0, 0, 0, 0>>
     THEN [st EXCEPT !.pc = Slice(Fetch(segs, st.pc, 14), 7, 8), !.n = @ + 1]                  \* FF 25 00000000 ; qword
     ELSE [st EXCEPT !.status = "unknown"]
